@@ -180,6 +180,38 @@ fn c08_p1_t() {
 }
 
 // ---------------------------------------------------------------------------
+// P1b  as_index_range(range) == ref_offset(start)..ref_offset(end)   (the conversion every ranged
+//      content change goes through), for ordered AND inverted position pairs
+// ---------------------------------------------------------------------------
+fn p1b<const N: usize>() {
+    let buf: [u8; N] = kani::any();
+    let text = sym_text(&buf);
+    let start = sym_pos(N as u32 + 1, N as u32 + 2);
+    let end = sym_pos(N as u32 + 1, N as u32 + 2);
+    let s = ref_offset(start.line, start.character, text);
+    let e = ref_offset(end.line, end.character, text);
+    kani::cover!(s.is_some() && e.is_some() && s.unwrap() < e.unwrap() && start.line < end.line, "range spanning a line break");
+    kani::cover!(s.is_some() && e.is_some() && has_astral_before(e.unwrap(), text) && s.unwrap() < e.unwrap(), "astral char inside or before the range");
+    let r = as_index_range(&LspRange { start, end }, text);
+    assert!(r.start <= text.len() && r.end <= text.len(), "C08/P1b range beyond text");
+    if let (Some(s), Some(e)) = (s, e) {
+        assert!(r.start == s && r.end == e, "C08/P1b as_index_range != (LSP offset of start)..(LSP offset of end)");
+    }
+}
+
+#[kani::proof]
+#[kani::unwind(6)]
+fn c08_p1b_q() {
+    p1b::<4>()
+}
+
+#[kani::proof]
+#[kani::unwind(10)]
+fn c08_p1b_t() {
+    p1b::<8>()
+}
+
+// ---------------------------------------------------------------------------
 // P2  as_position == LSP reference, and get_insertion_index(as_position(i)) == i
 // ---------------------------------------------------------------------------
 fn p2<const N: usize>() {
@@ -218,6 +250,38 @@ fn c08_p2_q() {
 #[kani::unwind(14)]
 fn c08_p2_t() {
     p2::<12>()
+}
+
+// ---------------------------------------------------------------------------
+// P2r  round trip alone, on texts that MAY contain a lone CR (no LSP reference is used here, so the
+//      question how a lone CR counts does not arise): whatever position the server reports for an
+//      offset, sending it back addresses that offset
+// ---------------------------------------------------------------------------
+fn p2r<const N: usize>() {
+    let buf: [u8; N] = kani::any();
+    let len: usize = kani::any();
+    kani::assume(len <= N);
+    let r = std::str::from_utf8(&buf[..len]);
+    kani::assume(r.is_ok());
+    let text = r.unwrap();
+    let idx: usize = kani::any();
+    kani::assume(idx <= text.len() && is_boundary(idx, text) && !in_crlf(idx, text));
+    kani::cover!(idx >= 2 && text.as_bytes()[0] == b'\r' && text.as_bytes()[1] != b'\n', "lone CR in front of the offset");
+    let p = as_position(idx, text);
+    let back = get_insertion_index(&p, text);
+    assert!(back == idx, "C08/P2r a reported position sent back must address the same offset");
+}
+
+#[kani::proof]
+#[kani::unwind(6)]
+fn c08_p2r_q() {
+    p2r::<4>()
+}
+
+#[kani::proof]
+#[kani::unwind(10)]
+fn c08_p2r_t() {
+    p2r::<8>()
 }
 
 // ---------------------------------------------------------------------------
